@@ -67,8 +67,10 @@ where
             }
         } else {
             // tracing::trace!("new entry for {}", id);
-            self.queue.insert(id, ReassembleQueue::new(total, seq, buf));
-            self.timer.push_back((id, Instant::now() + self.timeout));
+            let expires = Instant::now() + self.timeout;
+            self.queue
+                .insert(id, ReassembleQueue::new(total, seq, buf, expires));
+            self.timer.push_back((id, expires));
             None
         }
     }
@@ -76,7 +78,12 @@ where
         let now = Instant::now();
         for _ in 0..self.timer.partition_point(|x| x.1 < now) {
             let id = self.timer.pop_front().unwrap().0;
-            self.queue.remove(&id);
+            // the entry may belong to a frame that completed long ago while a newer frame reuses the id
+            if let Entry::Occupied(entry) = self.queue.entry(id) {
+                if entry.get().expires <= now {
+                    entry.remove();
+                }
+            }
             // tracing::trace!("removed fragment queue {} by timer", id);
         }
     }
@@ -137,17 +144,19 @@ impl<T: Buf> Iterator for MakeFragments<T> {
 }
 
 struct ReassembleQueue {
+    expires: Instant,
     missing: usize,
     fragments: Vec<Option<Bytes>>,
 }
 
 impl ReassembleQueue {
-    fn new(total: u8, seq: u8, buf: Bytes) -> Self {
+    fn new(total: u8, seq: u8, buf: Bytes, expires: Instant) -> Self {
         let total = total as usize;
         let this = seq as usize;
         let mut fragments = vec![None; total];
         fragments[this] = Some(buf);
         Self {
+            expires,
             missing: total - 1,
             fragments,
         }
